@@ -184,8 +184,16 @@ func (av arrayValue) PropertyValue(iv Value) Value {
 func (mv mapValue) Contains(iv Value) bool {
 	mr := reflect.ValueOf(mv.value)
 	ir := reflect.ValueOf(iv.Interface())
-	if ir.IsValid() && mr.Type().Key() == ir.Type() {
+	// (a map[any]any, as YAML decoding produces, has keys of any comparable type)
+	kt := mr.Type().Key()
+	switch {
+	case !ir.IsValid():
+		return false
+	case ir.Type().AssignableTo(kt) && ir.Type().Comparable():
 		return mr.MapIndex(ir).IsValid()
+	case ir.Kind() == reflect.String && kt.Kind() == reflect.String:
+		// the key type is a named string type
+		return mr.MapIndex(ir.Convert(kt)).IsValid()
 	}
 	return false
 }
